@@ -401,6 +401,8 @@ type parseCase struct {
 	Handle bool   `json:"handle_set"`
 	Seed   uint64 `json:"frag_seed"`
 	ErrAt  int    `json:"err_at"`
+	// Discard: the destination is hostsfile.DiscardSet{} (with Handle false)
+	Discard bool `json:"discard_set"`
 }
 
 func runParse(c parseCase) (what string, evals int) {
@@ -436,6 +438,9 @@ func runParse(c parseCase) (what string, evals int) {
 		hs := &handleRecorder{}
 		err = hostsfile.Parse(hs, src, buf)
 		got = hs.ev
+	} else if c.Discard {
+		// the package's own "errors only" destination: nothing is recorded, every invalid line is in the error
+		err = hostsfile.Parse(hostsfile.DiscardSet{}, src, buf)
 	} else {
 		rs := &recorder{}
 		err = hostsfile.Parse(rs, src, buf)
@@ -448,6 +453,9 @@ func runParse(c parseCase) (what string, evals int) {
 	if c.Frag == fErrAfter {
 		if !errors.Is(err, errInjected) {
 			return fmt.Sprintf("reader failed after %d bytes but Parse returned %v", c.ErrAt, err), evals
+		}
+		if c.Discard && !c.Handle {
+			return "", evals
 		}
 		// everything before the failure point is delivered; the unterminated
 		// fragment in front of the failure may or may not be treated as a line
@@ -462,6 +470,9 @@ func runParse(c parseCase) (what string, evals int) {
 		return "", evals
 	}
 	want := expected(b, source, c.Handle)
+	if c.Discard && !c.Handle {
+		want = nil
+	}
 	if w := cmpEvents(got, want, b); w != "" {
 		return w, evals
 	}
@@ -602,7 +613,7 @@ func TestParse(t *testing.T) {
 			for frag := 0; frag < nFrag; frag++ {
 				for _, named := range []bool{false, true} {
 					for _, handle := range []bool{false, true} {
-						c := parseCase{Input: in, Frag: frag, Buf: bufs[rng.IntN(len(bufs))], Named: named, Handle: handle, Seed: uint64(i)*7 + uint64(frag)}
+						c := parseCase{Input: in, Frag: frag, Buf: bufs[rng.IntN(len(bufs))], Named: named, Handle: handle, Seed: uint64(i)*7 + uint64(frag), Discard: !handle && (i+frag)%3 == 0}
 						if frag == fErrAfter {
 							c.ErrAt = rng.IntN(len(in) + 1)
 							errRuns++
@@ -610,7 +621,7 @@ func TestParse(t *testing.T) {
 						what, ev := runParse(c)
 						e += int64(ev)
 						if what != "" {
-							r.Violation(fmt.Sprintf("parse:%s:%d:%v:%v", mon.Q(in), frag, named, handle), fmt.Sprintf("Parse of %s read as [%s], buf %d, named=%v, HandleSet=%v: %s", mon.Q(in), fragNames[frag], c.Buf, named, handle, what), c)
+							r.Violation(fmt.Sprintf("parse:%s:%d:%v:%v", mon.Q(in), frag, named, handle), fmt.Sprintf("Parse of %s read as [%s], buf %d, named=%v, HandleSet=%v, DiscardSet=%v: %s", mon.Q(in), fragNames[frag], c.Buf, named, handle, c.Discard, what), c)
 						}
 					}
 				}
